@@ -19,6 +19,11 @@ from . import session
 from . import C14 as base
 
 LEVEL = "other"
+IMPORTS = [
+    ("C13", ("C13.dirty", "C13.framing", "C13.sanitise"),
+     "C06 assumes `is_dirty() == false` implies column 0 before the prompt and line are redrawn after application output"),
+    ("C05", None, "the effect model's editor operations (cursor by one character, bounded by the character count) are the real editor's"),
+]
 
 ECMA48 = {'CURSOR_FORWARD': b'\x1b[C', 'CURSOR_BACKWARD': b'\x1b[D', 'CLEAR_LINE': b'\x1b[2K',
           'INSERT_CHAR': b'\x1b[@', 'DELETE_CHAR': b'\x1b[P'}
